@@ -26,6 +26,7 @@ EXPLANATION = (
     "layout of the three items involved. Not decided: concrete UID string encoding."
     " Second session: the acceptor's reply used for a context is looked up for that context in the same loop iteration on every path (typestate fresh / stale / foreign; try-except, .get and if-else spellings accepted); AE.associate() numbers every proposed context unconditionally with an odd ID affine and injective in its position (unique-ids)."
     " Fourth session: (private-contexts) borrowed from C10's config-copy; the requestor-side partition is evaluated like the acceptor's."
+    ' Fifth round: the requestor side is evaluated on a two-context scenario whose outcome must not depend on the iteration order (iteration-independent); role helpers are followed.'
 )
 
 B3 = (True, False, None)
